@@ -33,5 +33,5 @@ Definition model (c : case) : Q :=
   end.
 Definition imp (c : case) : Q := match c with CDqn _ _ _ _ _ _ _ l => l | CSacQ _ _ _ _ _ _ _ _ _ _ l => l | CSacActor _ _ _ _ l => l end.
 
-Definition agree (c : case) : bool := Qeq_bool (model c) (imp c).
+Definition agree (c : case) : bool := Qclose (1 # 1000000000000) (model c) (imp c).   (* the mean over a batch whose size is not a power of two is rounded *)
 Definition holds (c : case) : bool := agree c.
